@@ -58,6 +58,11 @@ fn main() {
             println!("counters {:?}", r.counters);
             0
         }
+        Some("journal-verdict") => {
+            // vx journal-verdict <property> <tier> <journal file> <how the engine ended>
+            let (prop, tier, path, how) = (&args[2], &args[3], &args[4], args.get(5).cloned().unwrap_or_default());
+            vx::report::journal_verdict(prop, tier, path, &how)
+        }
         Some("replay") => vx::replay::replay_file(args.get(2).expect("path")),
         _ => {
             println!("usage: vx check <property> <quick|thorough> | vx replay <file>");
